@@ -54,11 +54,14 @@ func loadInfo(text string) (*prom.ConfigInfo, error) {
 	return cm.ConfigInfo(), nil
 }
 
+// dropRegex is the metric relabel rule in force; a reload may replace it (rulesReloaded).
+var c20DropRegex = "drop_.*"
+
 func c20Config(jobs []string) string {
 	var b strings.Builder
 	b.WriteString("global:\n  scrape_interval: 15s\n  scrape_timeout: 10s\nscrape_configs:\n")
 	for _, j := range jobs {
-		fmt.Fprintf(&b, "- job_name: %s\n  metric_relabel_configs:\n  - source_labels: [__name__]\n    regex: drop_.*\n    action: drop\n  static_configs:\n  - targets: ['x:1']\n", j)
+		fmt.Fprintf(&b, "- job_name: %s\n  metric_relabel_configs:\n  - source_labels: [__name__]\n    regex: %s\n    action: drop\n  static_configs:\n  - targets: ['x:1']\n", j, c20DropRegex)
 	}
 	return b.String()
 }
@@ -80,9 +83,12 @@ type c20Event struct {
 }
 
 type c20Case struct {
-	Workers int         `json:"workers"`
-	Targets []c20Target `json:"targets"`
-	Events  []c20Event  `json:"events"`
+	// RulesReloaded: before anything is asked for, the configuration is reloaded with other
+	// metric_relabel_configs (nothing is dropped any more) and unchanged HTTP client settings
+	RulesReloaded bool        `json:"rulesReloaded,omitempty"`
+	Workers       int         `json:"workers"`
+	Targets       []c20Target `json:"targets"`
+	Events        []c20Event  `json:"events"`
 }
 
 type reqRec struct {
@@ -188,6 +194,15 @@ func runC20(rec *vkit.Recorder, c *c20Case) []vkit.Violation {
 	if err := cm.ReloadFromRaw([]byte(c20Config(cfgJobs()))); err != nil {
 		add("C20/harness", "%v", err)
 		return vs
+	}
+	c20DropRegex = "drop_.*"
+	defer func() { c20DropRegex = "drop_.*" }()
+	if c.RulesReloaded {
+		c20DropRegex = "never_matches_.*"
+		if err := cm.ReloadFromRaw([]byte(c20Config(cfgJobs()))); err != nil {
+			add("C20/harness", "%v", err)
+			return vs
+		}
 	}
 	ctx, cancel := context.WithCancel(context.Background())
 	defer cancel()
@@ -391,8 +406,16 @@ func runC20(rec *vkit.Recorder, c *c20Case) []vkit.Violation {
 		if st == nil {
 			continue
 		}
-		if string(st.Health) != "up" || st.Series != int64(sp.Samples) || st.TotalSeries != int64(sp.Samples+sp.Dropped) {
-			add("C20/estimate-wrong", "target %d: probe returned %d samples of which %d survive metric relabeling, Get reports health %q series %d totalSeries %d", h, sp.Samples+sp.Dropped, sp.Samples, st.Health, st.Series, st.TotalSeries)
+		wantSeries := int64(sp.Samples)
+		if c.RulesReloaded {
+			wantSeries = int64(sp.Samples + sp.Dropped) // the rules in force drop nothing
+		}
+		if string(st.Health) != "up" || st.Series != wantSeries || st.TotalSeries != int64(sp.Samples+sp.Dropped) {
+			k := "C20/estimate-wrong"
+			if c.RulesReloaded {
+				k += "/after-rules-reload"
+			}
+			add(k, "target %d: probe returned %d samples of which %d survive the metric relabeling in force, Get reports health %q series %d totalSeries %d", h, sp.Samples+sp.Dropped, wantSeries, st.Health, st.Series, st.TotalSeries)
 		}
 	}
 	// ---- request log oracles
@@ -476,7 +499,7 @@ func runC20(rec *vkit.Recorder, c *c20Case) []vkit.Violation {
 }
 
 func genC20(t *rapid.T) *c20Case {
-	c := &c20Case{Workers: rapid.IntRange(1, 4).Draw(t, "workers")}
+	c := &c20Case{Workers: rapid.IntRange(1, 4).Draw(t, "workers"), RulesReloaded: rapid.IntRange(0, 3).Draw(t, "rulesReloaded") == 0}
 	n := rapid.IntRange(1, 6).Draw(t, "nTargets")
 	for i := 0; i < n; i++ {
 		l := fmt.Sprintf("t%d", i)
